@@ -519,6 +519,7 @@ package dig
 //@   ensures[C13:provider-error-wrapped] reached(Call_1) && err != nil ==> is(err, errParamSingleFailed) && v == nil
 //@        && as(err, errParamSingleFailed).Reason == ret(Call_1, 0) && as(err, errParamSingleFailed).Key == k
 //@        && is(recvOf(Call_1), ptr(constructorNode)) && as(err, errParamSingleFailed).CtorID == as(recvOf(Call_1), ptr(constructorNode)).id
+//@   ensures[C04:optional-tolerates-missing-dependencies-at-any-depth] reached(Call_1) && ps.Optional && ret(Call_1, 0) != nil && chainHasMissingDeps(ret(Call_1, 0)) ==> err == nil && v == zeroV(ps.Type)
 //@   ensures[C04:provider-error-not-hidden] reached(Call_1) && ret(Call_1, 0) != nil && !(ps.Optional && chainHasMissingDeps(ret(Call_1, 0))) ==> err != nil
 //@   site call (dig.provider).Call #1: assert[C08:provider-sees-its-own-scope,C01:provider-sees-its-own-scope] is($recv, ptr(constructorNode)) && isScope($arg0) && scopeOf($arg0) == as($recv, ptr(constructorNode)).origS
 //@   site call (dig.provider).Call #1: assert[C03:provider-is-registered-for-the-key] exists j int, idx int :: 0 <= j && j < S.nanc && 0 <= idx
@@ -1110,3 +1111,139 @@ package dig
 //@   ensures[C12:decorate-touches-no-other-scope,C08:decorate-touches-no-other-scope] forall x *Scope, k key :: existed(x) && x != s ==> (k in x.decorators) == old(k in x.decorators) && x.decorators[k] == old(x.decorators[k])
 //@   ensures[C06:rejected-decorate-leaves-the-info-untouched,C18:rejected-decorate-leaves-the-info-untouched] err != nil && reached(newDecoratorNode_1) && argOf(newDecoratorNode_1, 2).Info != nil ==>
 //@        kept(DecorateInfo.ID, DecorateInfo.Inputs, DecorateInfo.Outputs)
+
+// ---------------------------------------------------------------------------
+// options: each constructor records exactly its argument, each applier sets
+// exactly its field (C08 Export, C09 Name/Group/As, C18 Info, C20 callbacks,
+// C13 RecoverFromPanics, C05/C16 DeferAcyclicVerification)
+
+//@ func Export(export) (r)
+//@   allocates plain
+//@   ensures[C08:export-option-records-its-argument] is(r, provideExportOption) && as(r, provideExportOption).exported == export
+//@ func (o provideExportOption) applyProvideOption(opts) ()
+//@   requires opts != nil
+//@   modifies provideOptions.Exported
+//@   allocates plain
+//@   ensures[C08:export-option-sets-the-flag-it-was-given] opts.Exported == o.exported
+//@   ensures[C08:export-option-touches-one-option-set] forall x *provideOptions :: x != opts ==> x.Exported == old(x.Exported)
+
+//@ func Name(name) (r)
+//@   allocates plain
+//@   ensures[C09:name-option-records-its-argument] is(r, provideNameOption) && as(r, provideNameOption) == name
+//@ func (o provideNameOption) applyProvideOption(opt) ()
+//@   requires opt != nil
+//@   modifies provideOptions.Name
+//@   allocates plain
+//@   ensures[C09:name-option-sets-the-name] opt.Name == o
+//@   ensures forall x *provideOptions :: x != opt ==> x.Name == old(x.Name)
+
+//@ func Group(group) (r)
+//@   allocates plain
+//@   ensures[C09:group-option-records-its-argument] is(r, provideGroupOption) && as(r, provideGroupOption) == group
+//@ func (o provideGroupOption) applyProvideOption(opt) ()
+//@   requires opt != nil
+//@   modifies provideOptions.Group
+//@   allocates plain
+//@   ensures[C09:group-option-sets-the-group] opt.Group == o
+//@   ensures forall x *provideOptions :: x != opt ==> x.Group == old(x.Group)
+
+//@ func FillProvideInfo(info) (r)
+//@   allocates plain
+//@   ensures[C18:info-option-records-its-argument] is(r, fillProvideInfoOption) && as(r, fillProvideInfoOption).info == info
+//@ func (o fillProvideInfoOption) applyProvideOption(opts) ()
+//@   requires opts != nil
+//@   modifies provideOptions.Info
+//@   allocates plain
+//@   ensures[C18:info-option-sets-the-info] opts.Info == o.info
+//@   ensures forall x *provideOptions :: x != opts ==> x.Info == old(x.Info)
+
+//@ func (o provideLocationOption) applyProvideOption(opts) ()
+//@   requires opts != nil
+//@   modifies provideOptions.Location
+//@   allocates plain
+//@   ensures opts.Location == o.loc
+//@   ensures forall x *provideOptions :: x != opts ==> x.Location == old(x.Location)
+
+//@ func WithProviderCallback(callback) (r)
+//@   allocates plain
+//@   ensures[C20:provider-callback-option-records-its-argument] is(r, withCallbackOption) && as(r, withCallbackOption).callback == callback
+//@ func WithDecoratorCallback(callback) (r)
+//@   allocates plain
+//@   ensures[C20:decorator-callback-option-records-its-argument] is(r, withCallbackOption) && as(r, withCallbackOption).callback == callback
+//@ func (o withCallbackOption) applyProvideOption(po) ()
+//@   requires po != nil
+//@   modifies provideOptions.Callback
+//@   allocates plain
+//@   ensures[C20:provider-callback-option-sets-the-callback] po.Callback == o.callback
+//@   ensures forall x *provideOptions :: x != po ==> x.Callback == old(x.Callback)
+//@ func (o withCallbackOption) apply(do) ()
+//@   requires do != nil
+//@   modifies decorateOptions.Callback
+//@   allocates plain
+//@   ensures[C20:decorator-callback-option-sets-the-callback] do.Callback == o.callback
+//@   ensures forall x *decorateOptions :: x != do ==> x.Callback == old(x.Callback)
+
+//@ func FillDecorateInfo(info) (r)
+//@   allocates plain
+//@   ensures[C18:decorate-info-option-records-its-argument] is(r, fillDecorateInfoOption) && as(r, fillDecorateInfoOption).info == info
+//@ func (o fillDecorateInfoOption) apply(opts) ()
+//@   requires opts != nil
+//@   modifies decorateOptions.Info
+//@   allocates plain
+//@   ensures[C18:decorate-info-option-sets-the-info] opts.Info == o.info
+//@   ensures forall x *decorateOptions :: x != opts ==> x.Info == old(x.Info)
+
+//@ func FillInvokeInfo(info) (r)
+//@   allocates plain
+//@   ensures[C18:invoke-info-option-records-its-argument] is(r, fillInvokeInfoOption) && as(r, fillInvokeInfoOption).info == info
+//@ func (o fillInvokeInfoOption) applyInvokeOption(opts) ()
+//@   requires opts != nil
+//@   modifies invokeOptions.Info
+//@   allocates plain
+//@   ensures[C18:invoke-info-option-sets-the-info] opts.Info == o.info
+//@   ensures forall x *invokeOptions :: x != opts ==> x.Info == old(x.Info)
+
+//@ func DryRun(dry) (r)
+//@   allocates plain
+//@   ensures[C17:dry-run-option-records-its-argument] is(r, dryRunOption) && as(r, dryRunOption) == dry
+
+//@ func (o recoverFromPanicsOption) applyOption(c) ()
+//@   requires c != nil && c.scope != nil
+//@   modifies Scope.recoverFromPanics
+//@   allocates plain
+//@   ensures[C13:recover-option-turns-recovery-on] c.scope.recoverFromPanics
+//@   ensures forall x *Scope :: x != c.scope ==> x.recoverFromPanics == old(x.recoverFromPanics)
+
+//@ func (o deferAcyclicVerificationOption) applyOption(c) ()
+//@   requires c != nil && c.scope != nil
+//@   modifies Scope.deferAcyclicVerification
+//@   allocates plain
+//@   ensures[C05:defer-option-defers-verification,C16:defer-option-defers-verification] c.scope.deferAcyclicVerification
+//@   ensures forall x *Scope :: x != c.scope ==> x.deferAcyclicVerification == old(x.deferAcyclicVerification)
+
+// ---------------------------------------------------------------------------
+// Provide: the public entry point (C06, C08, C09, C14)
+
+//@ func (o *provideOptions) Validate() (err)
+//@   requires o != nil && treeInv()
+//@   allocates
+//@   ensures[C09:name-and-group-exclude-each-other] err == nil ==> len(o.Group) == 0 || len(o.Name) == 0
+//@   ensures[C09:as-arguments-are-pointers-to-interfaces,C14:as-arguments-are-pointers-to-interfaces] err == nil ==> (forall i int :: 0 <= i && i < len(o.As) ==> o.As[i] != nil && kind(typeOf(o.As[i])) == kPtr() && kind(elem(typeOf(o.As[i]))) == kInterface())
+//@   ensures[C14:invalid-options-are-an-invalid-input-error] err != nil ==> is(err, errInvalidInput)
+//@   ensures treeInv()
+//@   loop range o.As #1: invariant[C09:as-arguments-checked-so-far] forall i int :: 0 <= i && i < $i ==> o.As[i] != nil && kind(typeOf(o.As[i])) == kPtr() && kind(elem(typeOf(o.As[i]))) == kInterface()
+//@   loop range o.As #1: invariant treeInv()
+
+//@ func (s *Scope) Provide(constructor, opts) (err)
+//@   requires s != nil && treeInv()
+//@   requires forall i int :: 0 <= i && i < len(opts) ==> opts[i] != nil
+//@   modifies map(Scope.providers), Scope.nodes, elems(*constructorNode), Scope.isVerifiedAcyclic, graphHolder.nodes, graphHolder.snap, elems(*graphNode), map(constructorNode.orders), elems(*Scope)
+//@   modifies ProvideInfo.ID, ProvideInfo.Inputs, ProvideInfo.Outputs
+//@   allocates
+//@   ensures[C03:providing-runs-nothing,C17:providing-runs-nothing] $nrun == old($nrun) && $ncb == old($ncb) && $ev == old($ev)
+//@   ensures[C14:bad-constructor-is-an-error] (constructor == nil || kind(typeOf(constructor)) != kFunc()) ==> err != nil && is(err, errInvalidInput) && unchangedAll()
+//@   ensures[C06:provide-rejected-before-registration-changes-nothing] err != nil && !reached(provide_1) ==> unchangedAll()
+//@   ensures[C13:provide-errors-are-wrapped-once,C06:provide-errors-are-wrapped-once] reached(provide_1) && ret(provide_1, 0) != nil ==> is(err, errProvide) && as(err, errProvide).Reason == ret(provide_1, 0)
+//@   ensures[C06:provide-verdict-is-provides-verdict] reached(provide_1) ==> (err == nil) == (ret(provide_1, 0) == nil)
+//@   loop range opts #1: invariant[C06:options-collected-without-touching-the-container] unchangedAll() && treeInv() && (cap(options.As) == 0 || fresh(options.As))
+//@   site call (*dig.Scope).provide #1: assert[C08:constructor-passed-on-unchanged,C09:constructor-passed-on-unchanged] $recv == s && $arg0 == constructor
